@@ -293,7 +293,13 @@ pub trait Quantity: Copy + Sized + Mul<AmountT> {
             fmt::Display::fmt(&self.amount(), form)
         } else {
             let tmp: String;
+            #[cfg(feature = "fpdec")]
             let amnt_non_neg = self.amount() >= AMNT_ZERO;
+            // A negative zero is a negative amount, too; otherwise it would
+            // be written with its own sign in addition to a `+` flag.
+            #[cfg(not(feature = "fpdec"))]
+            let amnt_non_neg = self.amount() >= AMNT_ZERO
+                && !self.amount().is_sign_negative();
             #[cfg(feature = "fpdec")]
             let abs_amnt = self.amount().abs();
             #[cfg(not(feature = "fpdec"))]
